@@ -136,8 +136,21 @@ impl<R: BufRead + Seek + Position> ReadValue for ValueReader<R> {
         &mut self,
         len: usize,
     ) -> Result<<Self::Types as FieldTypes>::Bytes, ProtobufError> {
-        let mut buf = vec![0; len];
-        self.inner.read_exact(&mut buf)?;
+        // `len` comes from the input and may be far larger than the data that
+        // is actually available. Don't allocate more than `MAX_PREALLOC` bytes
+        // up front. Beyond that, grow the buffer geometrically as data arrives,
+        // so a corrupt length produces an error instead of a huge allocation
+        // (which aborts the process if it fails).
+        const MAX_PREALLOC: usize = 1 << 20;
+
+        let mut buf = Vec::new();
+        while buf.len() < len {
+            let filled = buf.len();
+            let step = (len - filled).min(filled.max(MAX_PREALLOC));
+            buf.reserve_exact(step);
+            buf.resize(filled + step, 0);
+            self.inner.read_exact(&mut buf[filled..])?;
+        }
         Ok(buf)
     }
 
@@ -150,7 +163,17 @@ impl<R: BufRead + Seek + Position> ReadValue for ValueReader<R> {
     }
 
     fn skip(&mut self, len: usize) -> Result<(), ProtobufError> {
-        self.inner.seek_relative(len as i64)?;
+        if len == 0 {
+            return Ok(());
+        }
+        // Seek to the last byte of the skipped range and read it. Seeking past
+        // the end of a file or buffer succeeds, so this is needed to report an
+        // error if `len` exceeds the remaining input.
+        let offset =
+            i64::try_from(len - 1).map_err(|_| ProtobufError::new(ErrorKind::Eof))?;
+        self.inner.seek_relative(offset)?;
+        let mut last = [0u8; 1];
+        self.inner.read_exact(&mut last)?;
         Ok(())
     }
 
@@ -202,8 +225,9 @@ impl<R: Read + Seek> Seek for ReadPos<R> {
     fn seek(&mut self, seek: SeekFrom) -> std::io::Result<u64> {
         match seek {
             SeekFrom::Current(offset) => {
+                let new_pos = self.offset_pos(offset)?;
                 self.inner.seek_relative(offset)?;
-                self.pos = (self.pos as i64 + offset) as u64;
+                self.pos = new_pos;
                 Ok(self.pos)
             }
             SeekFrom::Start(_) | SeekFrom::End(_) => {
@@ -218,9 +242,23 @@ impl<R: Read + Seek> Seek for ReadPos<R> {
     // to `seek_relative` on the underlying reader. This is much more efficient
     // for `BufReader`.
     fn seek_relative(&mut self, offset: i64) -> std::io::Result<()> {
+        let new_pos = self.offset_pos(offset)?;
         self.inner.seek_relative(offset)?;
-        self.pos = (self.pos as i64 + offset) as u64;
+        self.pos = new_pos;
         Ok(())
+    }
+}
+
+impl<R: Read> ReadPos<R> {
+    /// Return the current position plus `offset`, or an error if the result
+    /// would be negative or overflow.
+    fn offset_pos(&self, offset: i64) -> std::io::Result<u64> {
+        self.pos.checked_add_signed(offset).ok_or_else(|| {
+            std::io::Error::new(
+                std::io::ErrorKind::InvalidInput,
+                "invalid seek to a negative or overflowing position",
+            )
+        })
     }
 }
 
@@ -252,27 +290,46 @@ pub(crate) struct LimitReader<'a, R: ReadValue> {
 
 impl<'a, R: ReadValue> LimitReader<'a, R> {
     /// Create a reader which reads up to `len` bytes of `inner`.
+    ///
+    /// Pass `u64::MAX` for a reader which is only limited by the end of the
+    /// underlying stream.
     pub fn new(inner: &'a mut R, len: u64) -> Self {
         Self {
-            end: inner.position() + len,
+            end: inner.position().saturating_add(len),
             inner,
         }
     }
 
     /// Create a sub-reader which reads up to `len` bytes of this reader.
-    pub fn sub_limit(&mut self, len: u64) -> LimitReader<'_, R> {
-        LimitReader {
-            end: self.inner.position() + len,
+    ///
+    /// Returns an error if fewer than `len` bytes remain in this reader.
+    pub fn sub_limit(&mut self, len: u64) -> Result<LimitReader<'_, R>, ProtobufError> {
+        let end = self.end_after(len)?;
+        Ok(LimitReader {
+            end,
             inner: self.inner,
+        })
+    }
+
+    /// Return true if all the bytes of this reader have been consumed.
+    ///
+    /// This is always true for a reader created with a length of `u64::MAX`,
+    /// as its end is the end of the underlying stream.
+    pub fn at_limit(&self) -> bool {
+        self.end == u64::MAX || self.position() >= self.end
+    }
+
+    /// Return the position `len` bytes after the current position, or an
+    /// error if that is beyond the end of this reader.
+    fn end_after(&self, len: u64) -> Result<u64, ProtobufError> {
+        match self.position().checked_add(len) {
+            Some(end) if end <= self.end => Ok(end),
+            _ => Err(ProtobufError::new(ErrorKind::Eof)),
         }
     }
 
     fn check_has_bytes(&self, len: usize) -> Result<(), ProtobufError> {
-        if self.position() + (len as u64) <= self.end {
-            Ok(())
-        } else {
-            Err(ProtobufError::new(ErrorKind::Eof))
-        }
+        self.end_after(len as u64).map(|_| ())
     }
 }
 
